@@ -529,8 +529,11 @@ func (e *feeEnv) rawEvm(ctx sdk.Context, tx sdk.Tx, etxs []*ethtypes.Transaction
 
 // ---------------------------------------------------------------- observation
 type feeObs struct {
-	Code    int      `json:"code"`  // 0 executed, 1-3 rejected by ante (insufficient fee / funds / other), 4 ante passed, execution failed
-	Check   int      `json:"check"` // the same ante chain in CheckTx mode: 0 pass, 1-3
+	Code    int      `json:"code"`  // 0 executed, 1 refused by the ante chain (no effect), 4 ante passed, execution failed
+	Check   int      `json:"check"` // the same ante chain in CheckTx mode: 0 passes, 1 refuses
+	Cat     int      `json:"cat"`   // error class of a refusal, informational: 1 insufficient fee, 2 insufficient funds, 3 other
+	CkCat   int      `json:"ckcat"`
+	Prio    int64    `json:"prio"`  // priority the ante chain sets in CheckTx mode (0 when it refuses)
 	Wanted  uint64   `json:"wanted"`
 	Used    uint64   `json:"used"`
 	Net     string   `json:"net"`  // sender's balance decrease minus the value that reached the recipients
@@ -602,10 +605,15 @@ func (e *feeEnv) runTx(t feeTx) (o feeObs) {
 			}
 		}
 		if cerr == nil {
-			_, cerr = e.anteOn(fork.WithTxBytes(bz), dtx, true)
+			var nctx sdk.Context
+			nctx, cerr = e.anteOn(fork.WithTxBytes(bz), dtx, true)
+			if cerr == nil {
+				o.Prio = nctx.Priority()
+			}
 		}
-		o.Check = errCat(cerr)
+		o.CkCat = errCat(cerr)
 		if cerr != nil {
+			o.Check = 1
 			o.CkLog = short(cerr.Error())
 		}
 	}
@@ -638,7 +646,8 @@ func (e *feeEnv) runTx(t feeTx) (o feeObs) {
 	o.Bal0, o.Moved, o.Net, o.Coll = b0.String(), moved.String(), net.String(), new(big.Int).Sub(c1, c0).String()
 	o.Coll0 = c0.String()
 	o.RawCode = res.Code
-	antePassed := seq1 != seq0
+	// the ante chain passed iff its effects were written (sequence bumped, fee moved)
+	antePassed := seq1 != seq0 || b1.Cmp(b0) != 0 || c1.Cmp(c0) != 0
 	switch {
 	case res.Code == 0:
 		o.Code = 0
@@ -649,7 +658,8 @@ func (e *feeEnv) runTx(t feeTx) (o feeObs) {
 		o.Code = 4
 		o.Log = short(res.Log)
 	default:
-		o.Code = codeCat(res.Codespace, res.Code)
+		o.Code = 1
+		o.Cat = codeCat(res.Codespace, res.Code)
 		o.Log = short(res.Log)
 	}
 	if antePassed && t.Route == "eth" {
@@ -837,7 +847,7 @@ func (o feeObs) coq() string {
 	for _, u := range o.MsgUsed {
 		us = append(us, coqZu(u))
 	}
-	return fmt.Sprintf("(mkobs %d%%N %d%%N %s %s %s %s %s)", o.Code, o.Check, coqZu(o.Wanted), coqZu(o.Used), coqZs(o.Net), coqZs(o.Coll), coqList(us))
+	return fmt.Sprintf("(mkobs %d%%N %d%%N %s %s %s %s %s %s)", o.Code, o.Check, coqZi(o.Prio), coqZu(o.Wanted), coqZu(o.Used), coqZs(o.Net), coqZs(o.Coll), coqList(us))
 }
 
 func (p feeParams) coq() string {
@@ -877,6 +887,9 @@ func feesRunCase(id string, in feeInput, strict bool) Case {
 		}
 		below = below || b
 		tags[fmt.Sprintf("%s:code%d", t.Route, o.Code)] = true
+		if o.Code == 1 {
+			tags[fmt.Sprintf("%s:refused-class%d", t.Route, o.Cat)] = true
+		}
 		if o.Check != 0 && (o.Code == 0 || o.Code == 4) {
 			tags["deliver-accepts-check-rejects"] = true
 		}
